@@ -6,11 +6,12 @@
    every event list: clause 602 of c06_check never fails on a model trace (c06_reactions_hold_on_every_trace).
    The gates 601/604 (Session/GateProofs.v): a closure over all handlers shows that every FromApp / non-Logon FromAdmin
    callback and every OnLogon logged while ONE message is processed passes `gate_ok` with the resend context of the state
-   in which the message is processed (c06_gate_per_message).  Lifted to steps and traces: 601 and 604 never fail on an
-   event that cannot drain buffered frames after a disconnect (c06_gate_holds_without_drain, and about c06_check itself:
-   c06_gate_fails_only_on_drains, c06_gate_holds_on_drain_free_traces); without the SendingTime clause they never fail on
-   any event of any trace (c06_gate_noclock_holds_on_every_trace).  The unconditional statement is FALSE on the model
-   (c06_gate_601_refuted, c06_gate_604_refuted: drain-after-disconnect, KNOWN_FINDINGS.txt).
+   in which the message is processed (c06_gate_per_message).  Lifted to steps and traces: an event that handles at most one
+   buffered frame besides its own message (Spec.no_drain) handles everything in the state before it (c06_gate_step); an
+   event that drains two or more frames at a disconnect handles them in changing states that the observation does not show,
+   and c06_scan demands the clock-free gate there, which holds on every event (c06_gate_step_noclock).  Hence clauses 601
+   and 604 of c06_check never fail on a model trace, for every configuration and event list
+   (c06_gates_hold_on_every_trace); the former counterexamples are regression examples.
    The reject shape (603: RefSeqNum, reversed routing) is proved for every message and on every trace. *)
 From Coq Require Import ZArith List Bool.
 From QF Require Import Base.Bytes Session.Types Session.Model Session.Spec Session.LocalProofs Session.TraceProofs Session.ReactionProofs
@@ -95,8 +96,9 @@ Example c06_gate_per_message_nonvacuous :
   /\ gate_ok gt_cfg (gt_rs (s_st s)) (facts_of m) = true /\ gate_ok gt_cfg false (facts_of m) = false.
 Proof. exact gate_per_message_ex. Qed.
 
-(* ONE EVENT, any state: if the event cannot drain (the session is still connected afterwards, or nothing was buffered
-   before it - one frame for EDeliver), the callbacks of the event pass the gate of the state before the event *)
+(* ONE EVENT, any state: if the event drains at most one frame (the session is still connected afterwards, or at most one
+   frame was buffered before it - gt_quota: two for EDeliver, which takes one out first), the callbacks of the event pass
+   the gate of the state before the event *)
 Theorem c06_gate_step : forall s e,
   (is_connected (s_st (step s e)) = true \/ (length (s_in_buf s) <= gt_quota e)%nat) ->
   (forall sq tg v f, In (CbFromApp sq tg v f) (s_cbs (step s e)) -> gate_ok (s_cfg s) (gt_rs (s_st s)) f = true)
@@ -115,43 +117,16 @@ Theorem c06_gate_step_noclock : forall s e,
         exists t sq f, In (CbFromAdmin t sq f) (s_cbs (step s e)) /\ beq_bytes t T_LOGON = true /\ gate_ok (s_cfg s) true f = true).
 Proof. exact gate_step_callbacks_noclock. Qed.
 
-(* TRACE LEVEL (a).  `c06_check_nd` is c06_check restricted to the events with `no_drain e prev o` (still connected
-   afterwards, or ob_inbuf prev = 0, resp. <= 1 for EDeliver); on those events it is c06_check's own contribution
-   (c06_event = c06_scan on the single event).  For every configuration and event list, 601 and 604 never fail there. *)
-Theorem c06_gate_holds_without_drain : forall c es,
-  free_of [601; 604] (c06_check_nd c (combine es (map obs_of (run_trace es (init_sess c))))) = true.
-Proof. exact c06_gate_never_fails_without_drain. Qed.
-
-(* the restricted predicate against the original: equal when no event of the trace can drain, included in it always *)
-Theorem c06_check_nd_is_c06_check_on_drain_free_traces : forall tr c i prev,
-  all_no_drain prev tr = true -> c06_scan_nd c i prev tr = c06_scan c i prev tr.
-Proof. exact c06_scan_nd_eq. Qed.
-Theorem c06_check_nd_included_in_c06_check : forall tr c i prev x,
-  In x (c06_scan_nd c i prev tr) -> In x (c06_scan c i prev tr).
-Proof. exact c06_scan_nd_incl. Qed.
-
-(* ... so c06_check itself never reports 601 / 604 on a trace none of whose events can drain *)
-Theorem c06_gate_holds_on_drain_free_traces : forall c es,
-  all_no_drain (init_obs c) (combine es (map obs_of (run_trace es (init_sess c)))) = true ->
+(* TRACE LEVEL: for every configuration and every event list clauses 601 and 604 never fail on the model's trace.
+   c06_scan computes resend_ctx (SendingTime clause waived) as: replay in progress before or after the event, or the event may
+   have handled several frames in unobserved states (negb (no_drain e prev o)). *)
+Theorem c06_gates_hold_on_every_trace : forall c es,
   free_of [601; 604] (c06_check c (combine es (map obs_of (run_trace es (init_sess c))))) = true.
-Proof. exact c06_gate_never_fails_on_drain_free_traces. Qed.
+Proof. exact c06_gate_never_fails. Qed.
 
-(* ... and on ANY trace every 601 / 604 failure reported by c06_check sits at the index of an event that drained *)
-Theorem c06_gate_fails_only_on_drains : forall c es f,
-  In f (c06_check c (combine es (map obs_of (run_trace es (init_sess c))))) ->
-  existsb (Z.eqb (snd f)) [601; 604] = true ->
-  In (fst f) (drain_events O (init_obs c) (combine es (map obs_of (run_trace es (init_sess c))))).
-Proof. exact GateProofs.c06_gate_fails_only_on_drains. Qed.
-
-(* the hypothesis is satisfiable on a trace with callbacks of every kind (Logon -> FromAdmin + OnLogon, application
-   message -> FromApp, buffered Heartbeat delivered -> FromAdmin, a gap, a stale SendingTime while recovering, a disconnect) *)
-Example c06_drain_free_trace_nonvacuous :
-  all_no_drain (init_obs gt_cfg) (gt_trace gt_cfg gt_es_ok) = true
-  /\ map (fun eo => length (ob_cbs (snd eo))) (gt_trace gt_cfg gt_es_ok) = [0; 3; 1; 0; 1; 1; 1; 1]%nat.
-Proof. exact (conj gt_es_ok_no_drain gt_es_ok_callbacks). Qed.
-
-(* TRACE LEVEL (b).  `c06_check_nc` = clauses 601 / 604 with resend_ctx forced to true (the SendingTime clause waived).
-   On every trace and every event, drains included, it reports nothing; whatever it reports c06_check reports too. *)
+(* `c06_check_nc` = clauses 601 / 604 with resend_ctx forced to true (the SendingTime clause waived): what c06_check demands of
+   the events with no_drain = false and a lower bound of what it demands of every event.  On every trace and every event it
+   reports nothing; whatever it reports c06_check reports too. *)
 Theorem c06_gate_noclock_holds_on_every_trace : forall c es,
   c06_check_nc c (combine es (map obs_of (run_trace es (init_sess c)))) = [].
 Proof. exact c06_gate_noclock_never_fails. Qed.
@@ -159,21 +134,38 @@ Theorem c06_check_nc_included_in_c06_check : forall tr c i prev x,
   In x (c06_scan_nc c i tr) -> In x (c06_scan c i prev tr).
 Proof. exact c06_scan_nc_incl. Qed.
 
-(* THE UNCONDITIONAL STATEMENT IS FALSE ON THE MODEL (finding drain-after-disconnect).  Logged on; two frames are buffered:
-   number 5 (a gap) and number 2 with SendingTime 1000 s off (window 120 s); the connection is lost; onDisconnect drains the
-   buffer: number 5 is processed in session and starts a recovery, number 2 is then processed in the resend state where
-   the SendingTime check is waived and reaches the application (resp., for a Logon, establishes the session); the event
-   starts in session and ends latent, so the observation shows no replay in progress. *)
-Example c06_gate_601_refuted : exists c es, c06_check c (gt_trace c es) = [(4%nat, 601)].
-Proof. exact c06_gate_601_refuted_ex. Qed.
-Example c06_gate_604_refuted : exists c es, c06_check c (gt_trace c es) = [(4%nat, 604)].
-Proof. exact c06_gate_604_refuted_ex. Qed.
-Example c06_gate_unconditional_refuted :
-  ~ (forall c es, free_of [601; 604] (c06_check c (combine es (map obs_of (run_trace es (init_sess c))))) = true).
-Proof. exact c06_gate_refuted_ex. Qed.
-(* on that trace the restricted and the clock-free predicates are silent and the draining event is number 4 *)
-Example c06_gate_refuting_trace_facts :
-  (c06_check_nd gt_cfg (gt_trace gt_cfg gt_es_601) = [] /\ c06_check_nc gt_cfg (gt_trace gt_cfg gt_es_601) = []
-   /\ all_no_drain (init_obs gt_cfg) (gt_trace gt_cfg gt_es_601) = false)
-  /\ drain_events O (init_obs gt_cfg) (gt_trace gt_cfg gt_es_601) = [4%nat].
-Proof. exact (conj gt_es_601_variants gt_es_601_drains). Qed.
+(* REGRESSION: the former counterexamples (drain of two frames at a disconnect: number 5 opens a recovery, number 2 with a
+   SendingTime 1000 s off is then handled in the resend state where the check is waived and reaches the application, resp.
+   as a Logon establishes the session; the event starts in session and ends latent).  c06_check reports nothing; the
+   callbacks are there; the draining event is the only one with no_drain = false. *)
+Example c06_gate_601_regression :
+  c06_check gt_cfg (gt_trace gt_cfg gt_es_601) = []
+  /\ gt_count_cbs gt_is_fromapp (gt_trace gt_cfg gt_es_601) = [0; 0; 0; 0; 1]%nat
+  /\ map (fun eo => no_drain (fst (fst eo)) (snd (fst eo)) (snd eo))
+         (combine (combine gt_es_601 (init_obs gt_cfg :: map snd (gt_trace gt_cfg gt_es_601))) (map snd (gt_trace gt_cfg gt_es_601)))
+     = [true; true; true; true; false].
+Proof. exact gt_es_601_regression. Qed.
+Example c06_gate_604_regression :
+  c06_check gt_cfg (gt_trace gt_cfg gt_es_604) = []
+  /\ gt_count_cbs gt_is_onlogon (gt_trace gt_cfg gt_es_604) = [0; 1; 0; 0; 1]%nat.
+Proof. exact gt_es_604_regression. Qed.
+
+(* non-vacuity: traces with callbacks of every kind, and a disconnect that drains one buffered application message *)
+Example c06_gate_traces_nonvacuous :
+  map (fun eo => length (ob_cbs (snd eo))) (gt_trace gt_cfg gt_es_ok) = [0; 3; 1; 0; 1; 1; 1; 1]%nat
+  /\ gt_count_cbs gt_is_fromapp (gt_trace gt_cfg gt_es_one) = [0; 0; 0; 1]%nat.
+Proof. exact gt_es_ok_callbacks. Qed.
+
+(* the clauses still bite on doctored observations: a stale application message handed over in session by a single-message
+   event is reported (601); on the draining event of the regression trace a callback for a message with a wrong SenderCompID
+   is reported although the clock is waived there *)
+Example c06_gate_clauses_bite :
+  filter (fun f => snd f =? 601) (c06_scan gt_cfg 0 gt_in_session
+    [(EIncoming (gt_app 2 1000), gt_obs_with gt_in_session [CbFromApp (FVal 2) 2 VAccept (facts_of (gt_app 2 1000))])]) = [(0%nat, 601)]
+  /\ (let tr := gt_trace gt_cfg gt_es_601 in
+      let prev := nth 3 (map snd tr) gt_in_session in
+      let o := nth 4 (map snd tr) gt_in_session in
+      no_drain EInClosed prev o = false
+      /\ filter (fun f => snd f =? 601)
+            (c06_scan gt_cfg 4 prev [(EInClosed, gt_obs_with o [CbFromApp (FVal 2) 2 VAccept (gt_bad_sender (gt_app 2 0))])]) = [(4%nat, 601)]).
+Proof. exact gt_clauses_bite. Qed.
